@@ -261,8 +261,8 @@ SPECS = ["", "", "", ":", ":>10", ":.2f", ":{w}", ":{w}.{p}", ":>{w}.{p}f", ":{w
 def gen_field(rnd, quote, depth):
     e = rnd.choice(EXPRS)
     if depth < 3 and rnd.random() < 0.18:
-        # nested f-string in the field: other quote kind, or (3.12) the same
-        inner_q = rnd.choice(["'", '"'])
+        # nested f-string in the field: other quote kind, or (3.12) the same, single or triple quoted
+        inner_q = rnd.choice(["'", '"', "'", '"', "'''", '"""'])
         e = gen_fstring(rnd, depth + 1, force_quote=inner_q)
     if len(quote) == 1:
         e = e.replace("\n", " ")
@@ -273,6 +273,13 @@ def gen_field(rnd, quote, depth):
         dbg = rnd.choice(["=\n", "=\n\n", " =\n  \n ", "\n=\n", "=  \n\t\n"])  # white space after `=` may span blank lines
     conv = rnd.choice(CONV)
     spec = rnd.choice(SPECS)
+    r = rnd.random()
+    if r < 0.08:
+        # a spec may contain the quote character of the other kind (it matters which f-string the spec belongs to when nested)
+        other = '"' if quote[0] == "'" else "'"
+        spec = rnd.choice([":" + other + "^5", ":" + other, ":>" + other + "{w}" + other])
+    elif r < 0.12 and len(quote) == 3:
+        spec = rnd.choice([":\n>3", ":>3\n", ":\n{w}\n"])  # a spec of a triple-quoted f-string may span lines
     if len(quote) == 3 and rnd.random() < 0.1:
         e = e + rnd.choice(["\n", "  # c\n", "\n  "])
     return "{" + e + dbg + conv + spec + "}"
